@@ -89,7 +89,11 @@ PROPS["C01"] = dict(
     level_text='Kernel-checked theorems for every input table, key choice, run size and correct sort: the stored rows are exactly one input row per distinct key in strictly ascending key order (a permutation of the input when keys are unique), the row count matches, columns are kept, over-limit cells are refused with an error and nothing else is, the result is independent of row order / run size / sort, and every stored row reads back cell-for-cell at any size. Correspondence: ingest.IngestTable + GetTable/GetBlock == model on generated CSVs incl. 131072-byte cells, empty keys, duplicates.',
     level_note=LEVEL_NOTE + 'encoding/csv tokenisation and s2 are trusted; worker-count independence is argued in C16 (the model is worker-agnostic because blocks are ordered by offset); the CLI commit/export path (`wrgl commit`, also from the branch file set in the config, then `wrgl export`) is exercised in-process by 1 case in 12, not modelled.',
     lean_modules=["WrglModel.Props.C01"],
-    quick_n=240, thorough_n=3000, rule=_INGEST_RULE,
+    quick_n=240, thorough_n=3000,
+    rule=_INGEST_RULE + "; every 12th case is followed by a history of `wrgl commit main MSG` / `--all` from the branch's configured file and key "
+         "(file edited in place, branch.file re-pointed to a new / older / earlier file, key re-ordered, reduced, extended, replaced, "
+         "dropped, in the configuration or with -p; with and without a cached temporary commit): `wrgl export` after every step must "
+         "hold the rows of the table then in force",
     modelled="pkg/sorter/sorter.go, pkg/ingest/inserter.go (ingestTableFromBlocks, sortBlocks), objects.StrListEncoder/Decoder, block codec",
     assumptions=["encoding/csv tokenisation is trusted: the oracle's rows are what a plain csv.Reader returns for the file",
                  "s2 compression round-trips", "the CLI path (wrgl commit / wrgl export) is covered by C13's CLI runs, not here"],
@@ -101,7 +105,10 @@ PROPS["C02"] = dict(
     lean_modules=["WrglModel.Props.C02"],
     quick_n=120, thorough_n=1500,
     rule="logical tables with unique keys ingested under 5 configurations (row permutation, spill sizes, 1..8 workers, delimiter) "
-         "plus single-edit mutants (cell, column name, column order, key choice, row removed); non-trivial = >=2 rows; "
+         "plus single-edit mutants (cell, column name, column order, key choice, row removed); every 6th case is followed by a history of "
+         "`wrgl commit main MSG` / `--all` from the branch's configured file and key (see C01): after every step the head's table id "
+         "is the id of a direct ingest of the same logical table, equal tables have equal ids, different ones different ids, and "
+         "'no change' is reported exactly when the table is the one the branch holds; non-trivial = >=2 rows (>=3 steps); "
          "distinct = distinct (op, input)",
     modelled="objects.Table.WriteTo/writeMeta, SaveTable, SaveCompressedBlock key derivation; sorter/ingest as in C01",
     assumptions=["meow.Checksum is collision-free on the byte strings of a run (hypothesis of C02_injective)",
